@@ -211,3 +211,22 @@ var Keywords = map[string]bool{
 	"in": true, "match": true, "true": true, "false": true, "break": true, "continue": true,
 	"next": true, "exit": true, "null": true, "is": true,
 }
+
+// OpenIf reports whether a following `else` would attach to an if inside s
+// (s ends with an if that has no else).
+func OpenIf(s *Node) bool {
+	switch s.K {
+	case "if":
+		if len(s.C) > 2 && s.C[2] != nil {
+			return OpenIf(s.C[2])
+		}
+		return true
+	case "while":
+		return OpenIf(s.C[1])
+	case "for":
+		return OpenIf(s.C[3])
+	case "forin":
+		return OpenIf(s.C[1])
+	}
+	return false
+}
